@@ -270,7 +270,7 @@ PLANS = {
         "assumptions": ["stand-ins replace pybind11 and the compiled module (pybind11 is not installed): the binding half validates the registration calls, not pybind11 itself",
                         "CPython 3 runs the real reader"],
         "trusted_base": ["harness/pybind_stub/pybind11/pybind11.h", "harness/py_stub/coloquinte_pybind.py", "tools/rt_check.py", "CPython"],
-        "runs": [R("h_export", "asan", "c20.roundtrip", 4000, 40000), R("h_bind", "asan", "c20.bindings", 256, 256, exhaustive=True)],
+        "runs": [R("h_export", "asan", "c20.roundtrip", 4000, 40000), R("h_bind", "asan", "c20.bindings", 256, 256, exhaustive=True), R("h_bind", "asan", "c20.wrappers", 150, 1500)],
     },
     "C06": {
         "level": "exploration",
